@@ -200,9 +200,12 @@ func (h *host) getCPUPlans(cpuRequest float64) []types.CPUMap {
 	}
 
 	if full == 0 {
-		diff := h.maxFragmentCores - len(h.fragmentCores)
-		h.fragmentCores = append(h.fragmentCores, h.fullCores[:diff]...)
-		h.fullCores = h.fullCores[diff:]
+		// turn full cores into fragment cores only as far as the limit on fragment cores allows;
+		// the node may already carry more fragment cores than that limit
+		if diff := h.maxFragmentCores - len(h.fragmentCores); diff > 0 {
+			h.fragmentCores = append(h.fragmentCores, h.fullCores[:diff]...)
+			h.fullCores = h.fullCores[diff:]
+		}
 		return h.getFragmentCPUPlans(h.fragmentCores, fragment)
 	}
 
